@@ -161,8 +161,19 @@ pub fn gen_session(seed: u64, run: u64, thorough: bool) -> Session {
     let mut ops = preamble(if on_disk { Some(&root_uri) } else { None });
     let mut models: Vec<DocModel> = Vec::new();
     for d in 0..ndocs {
-        let text = gen_text(&mut rng, 40);
+        let mut text = gen_text(&mut rng, 40);
+        // what editors and other tools leave at the start or the end of a file
+        match rng.below(16) {
+            0 => text.insert(0, '\u{feff}'),
+            1 => text.push_str("\r\n\r\n"),
+            2 => text.insert_str(0, "\r\n"),
+            3 => text.insert(0, '\0'),
+            _ => {}
+        }
         let mut p = PlannedOp::new(Op::Open { uri: doc_uri(d), text: text.clone() });
+        if text.starts_with('\u{feff}') {
+            p.tags.push("doc.starts_with_bom".into());
+        }
         if on_disk {
             p.tags.push("open.unsaved_text_differs_from_disk".into());
         }
